@@ -158,7 +158,7 @@ def body_cache_control(I, X, ops=("max_age", "private")):
     return ok, {"trace": trace, "header": hdr}
 
 
-WA_OPS = ["set-type", "set-token", "set-param", "del-param", "set-param-none", "assign-new", "assign-none", "assign-params", "params-dict-set"]
+WA_OPS = ["set-type", "set-token", "set-param", "del-param", "set-param-none", "assign-new", "assign-none", "assign-params", "params-dict-set", "assign-then-dict-set"]
 
 
 def body_www_authenticate(I, X, ops=("set-param", "set-type"), start="params"):
@@ -207,6 +207,12 @@ def body_www_authenticate(I, X, ops=("set-param", "set-type"), start="params"):
             # the whole parameter dict is replaced ...
             I.setattr(w, "parameters", {"realm": x, "nonce": "m"})
             model["params"] = {"realm": x, "nonce": "m"}
+        elif op == "assign-then-dict-set":
+            # the SAME held view: replace the parameter dict, then mutate the new dict
+            I.setattr(w, "parameters", {"realm": x, "nonce": "m"})
+            d = I.getattr(w, "parameters")
+            I.call(d.__setitem__, ("qop", x))
+            model["params"] = {"realm": x, "nonce": "m", "qop": x}
         elif op == "params-dict-set":
             # ... and the dict handed out by .parameters is itself a live view
             d = I.getattr(w, "parameters")
